@@ -122,7 +122,7 @@ def run(tier):
         c = byid[cid]
         v = c["variants"][vi - 1]
         key = "%s@%s:%s:%s=>%s" % (clause, c["backend"], how, render.compact(c["q"]),
-                                   render.compact(v["q"]) if how in ("rename", "fuse") else how)
+                                   render.compact(v["q"]) if how in ("rename", "fuse", "md_mid") else how)
         if how == "rename":
             key += ":" + ",".join(_binder_names(v["q"]))
         rep.fail(key, {"clause": clause, "backend": c["backend"], "how": how, "base_query": c["src"], "variant_query": v["src"],
